@@ -296,7 +296,13 @@ def generate(root: Path | None = None, out: Path | None = None) -> dict:
     out = out or OUT
     out.parent.mkdir(parents=True, exist_ok=True)
     if not out.exists() or out.read_text() != text:
-        out.write_text(text)
+        try:
+            import common
+
+            with common.lean_lock(shared=False):
+                out.write_text(text)
+        except ImportError:
+            out.write_text(text)
     return data
 
 
